@@ -101,7 +101,8 @@ class Check:
 
     def scan_forbidden(self):
         bad = []
-        for d, _, fs in os.walk(COQ):
+        for d, dirs, fs in os.walk(COQ):
+            dirs[:] = [x for x in dirs if x not in ("tmp",) and not x.startswith(".")]
             for f in fs:
                 if f.endswith(".v"):
                     p = os.path.join(d, f)
